@@ -267,7 +267,7 @@ func (w *World) NewInst(i int, snapshot []byte, load bool) {
 	}
 	in := &Inst{S: s}
 	s.SetBroadcast(func(b []byte) { in.BC = append(in.BC, append([]byte(nil), b...)) })
-	in.Silencer = silence.NewSilencer(s, promslog.NewNopLogger(), eventrecorder.NopRecorder())
+	in.Silencer = silence.NewSilencer(s, WLogger(), eventrecorder.NopRecorder())
 	api, err := apiv2.NewAPI(nil, nil, nil, s, nil, promslog.NewNopLogger(), prometheus.NewRegistry())
 	if err != nil {
 		panic(err)
@@ -468,6 +468,11 @@ func class(code int) string {
 //	query i now <ids|all|since:v> <states|-> <ls|->  -> <version> <ids sorted>
 //	reload i                                  -> <dump>
 //	mutes i now <ls>                          -> <0|1> <silencedBy sorted>
+//	imutes i now <ls> <pt>~<op>~<args…> …     -> <0|1> <silencedBy sorted> <pt>~<obs…>|<pt>~- …
+//	      Mutes with store operations interleaved: <pt> is q1 / q2 (start of the first / second
+//	      Silences.Query of this call), e1 / e2 (that query has returned) or w (between the last
+//	      query and the cache write, only when some silence was found); the op is
+//	      a common store op (set, expire, merge, gc) with '~' for ' '; "<pt>~-" = point not reached
 //	postgc i <ls;ls…>                         -> ok
 func (w *World) Exec(line string) string {
 	t := strings.Fields(line)
@@ -629,11 +634,27 @@ func (w *World) Exec(line string) string {
 		}
 		w.NewInst(i, buf.Bytes(), true)
 		return w.Dump(i)
-	case "mutes":
+	case "mutes", "imutes":
 		w.SleepTo(hx.Atoi64(t[2]))
 		ls := ParseLs(strings.TrimPrefix(t[3], "L"))
 		mk := marker.NewAlertMarker()
-		muted := in.Silencer.Mutes(marker.WithContext(ctx, mk), ls)
+		var muted bool
+		injObs := make([]string, len(t)-4)
+		if t[0] == "imutes" {
+			for k, tok := range t[4:] {
+				injObs[k] = tok[:strings.Index(tok, "~")] + "~-"
+			}
+			WithInjection(func(point string) {
+				for k, tok := range t[4:] {
+					p := strings.Split(tok, "~")
+					if p[0] == point {
+						injObs[k] = point + "~" + strings.ReplaceAll(w.Exec(strings.Join(p[1:], " ")), " ", "~")
+					}
+				}
+			}, func() { muted = in.Silencer.Mutes(marker.WithContext(ctx, mk), ls) })
+		} else {
+			muted = in.Silencer.Mutes(marker.WithContext(ctx, mk), ls)
+		}
 		by := mk.Status(ls.Fingerprint()).SilencedBy
 		var ids []string
 		for _, id := range by {
@@ -643,6 +664,9 @@ func (w *World) Exec(line string) string {
 		v := "0"
 		if muted {
 			v = "1"
+		}
+		if len(injObs) > 0 {
+			return v + " " + hx.Join(ids, ".") + " " + strings.Join(injObs, " ")
 		}
 		return v + " " + hx.Join(ids, ".")
 	case "postgc":
